@@ -3,7 +3,7 @@
    Statements only; proofs in Store/Crash.v.  The database is a machine with a durable state and
    a volatile transaction copy: Begin copies, statements act on the copy, Commit publishes it, a
    crash discards it; every request = Begin, its statements, Commit, then the acknowledgement. *)
-From Verif Require Import Base.Bytes Store.GraphCount Store.GraphWalk Store.Model Store.ProofsRows Store.ProofsHash Store.ProofsTop Store.Crash Store.Init.
+From Verif Require Import Base.Bytes Store.GraphCount Store.GraphWalk Store.Model Store.ProofsRows Store.ProofsHash Store.ProofsTop Store.Crash Store.Init Store.InitRoot.
 From Verif Require Import Properties.StoreExample.
 
 (* for every history, every decomposition of each request into statements with the request's
@@ -56,7 +56,18 @@ Theorem C04_init_keeps_root_and_key :
 Proof. exact open_keeps_root_and_key. Qed.
 Print Assumptions C04_init_keeps_root_and_key.
 
-(* for concrete invented values (the statement is an example, not the general claim): at EVERY
+(* the general claim: for whatever root ids, admin ids, keys and clock values the two runs invent (any
+   non-empty ids other than the sentinels "root" and "none", the admin's different from the root's), with or
+   without a configured root id, at EVERY crash point k of a first open, the complete re-open ends with one
+   meta row carrying a root id and a signing key, and finds that root through a live edge *)
+Theorem C04_init_root_found :
+  forall fr1 fr2 k, ids_ok fr1 -> ids_ok fr2 ->
+    let d1 := open_db (open_crash empty_disk fr1 k) fr2 in
+    root_found d1 = true /\ exists m, d_meta d1 = [m] /\ m_root m <> [] /\ m_key m <> [].
+Proof. exact init_root_found. Qed.
+Print Assumptions C04_init_root_found.
+
+(* for concrete invented values (kept as a cross-check of the model by evaluation; they meet ids_ok): at EVERY
    crash point of a first open, with a configured root id and with an invented one, the re-open finds
    its root through a live edge and has a key, and a further open changes neither *)
 Definition ex_fr (cfg : bytes) (n : N) : fresh := mkFresh cfg [114%N; n] [97%N; n] [107%N; n] 1%Z.
@@ -68,6 +79,9 @@ Definition init_ok (cfg : bytes) (k : nat) : bool :=
   | [m1], [m2] => negb (bytes_eqb (m_key m1) []) && bytes_eqb (m_root m1) (m_root m2) && bytes_eqb (m_key m1) (m_key m2)
   | _, _ => false
   end.
+Example C04_init_ids_ok : ids_ok (ex_fr [] 1) /\ ids_ok (ex_fr [105%N;110%N;115%N;116%N] 2).
+Proof. unfold ids_ok, fresh_ok, ex_fr. cbn. repeat split; discriminate. Qed.
+
 Example C04_init_example :
   forallb (init_ok []) (seq 0 12) = true /\ forallb (init_ok [105%N;110%N;115%N;116%N]) (seq 0 12) = true.
 Proof. vm_compute. split; reflexivity. Qed.
